@@ -1,12 +1,24 @@
 (** Correspondence cases for C10: the harness records inputs / histories and what the real
-    keepers returned; [check] re-runs the model and compares projected observables. *)
-From Coq Require Import List ZArith Bool.
+    keepers returned; [check] re-runs the model and compares projected observables.
+
+    Strings (chain reference ids, chain types, traits) are recorded once per case in a table of the
+    Go strings themselves (bytes); the steps refer to them by index.  The model works on the strings:
+    whether two spellings name the same chain is decided here by [String.eqb], not by the harness. *)
+From Coq Require Import String Ascii.
+From Coq Require Import List ZArith NArith Bool.
 From Paloma Require Import Base.Corr Base.Num Valset.Snapshot Evm.Compass.
 Import ListNotations.
 Open Scope Z_scope.
 
-(** external account as recorded: (is-evm, chain, remote address) *)
-Definition rinfo := (bool * Z * Z)%type.
+(** a Go string given by its bytes (for spellings that are not printable ASCII) *)
+Definition bs (l : list Z) : string :=
+  fold_right (fun b s => String (ascii_of_N (Z.to_N b)) s) EmptyString l.
+
+Definition tbl := list string.
+Definition str (t : tbl) (i : Z) : string := nth (Z.to_nat i) t EmptyString.
+
+(** external account as recorded: (chain type, chain reference id, remote address, traits) *)
+Definition rinfo := (Z * Z * Z * list Z)%type.
 (** snapshot validator as recorded: (validator, share, accounts) *)
 Definition rval := (Z * Z * list rinfo)%type.
 (** stored snapshot as observed through FindSnapshotByID: (id, validators, total, chains) *)
@@ -14,12 +26,16 @@ Definition rsnap := (Z * list rval * Z * list Z)%type.
 (** staking validator as recorded: (validator, bonded, jailed, tokens) *)
 Definition rsval := (Z * bool * bool * Z)%type.
 
-Definition mk_info (r : rinfo) : extinfo :=
-  let '(evm, c, a) := r in {| ei_evm := evm; ei_chain := c; ei_addr := a |}.
-Definition mk_val (r : rval) : snapval :=
-  let '(a, s, infos) := r in {| v_addr := a; v_share := s; v_infos := map mk_info infos |}.
+Definition mk_info (t : tbl) (r : rinfo) : extinfo :=
+  let '(ty, c, a, tr) := r in
+  {| ei_type := str t ty; ei_chain := str t c; ei_addr := a; ei_traits := map (str t) tr |}.
+Definition mk_val (t : tbl) (r : rval) : snapval :=
+  let '(a, s, infos) := r in {| v_addr := a; v_share := s; v_infos := map (mk_info t) infos |}.
 Definition mk_sval (r : rsval) : sval :=
   let '(a, b, j, t) := r in {| sv_addr := a; sv_bonded := b; sv_jailed := j; sv_tokens := t |}.
+Definition mk_snap (t : tbl) (r : rsnap) : snapshot :=
+  let '(id, vals, total, chains) := r in
+  {| sn_id := id; sn_vals := map (mk_val t) vals; sn_total := total; sn_chains := map (str t) chains |}.
 
 Fixpoint list_eqb2 {A B} (eqb : A -> B -> bool) (l1 : list A) (l2 : list B) : bool :=
   match l1, l2 with
@@ -28,14 +44,14 @@ Fixpoint list_eqb2 {A B} (eqb : A -> B -> bool) (l1 : list A) (l2 : list B) : bo
   | _, _ => false
   end.
 
-Definition info_eqb (e : extinfo) (r : rinfo) : bool :=
-  let '(evm, c, a) := r in Bool.eqb (ei_evm e) evm && (ei_chain e =? c) && (ei_addr e =? a).
-Definition val_eqb (v : snapval) (r : rval) : bool :=
-  let '(a, s, infos) := r in (v_addr v =? a) && (v_share v =? s) && list_eqb2 info_eqb (v_infos v) infos.
-Definition snap_eqb (sn : snapshot) (r : rsnap) : bool :=
-  let '(id, vals, total, chains) := r in
-  (sn_id sn =? id) && list_eqb2 val_eqb (sn_vals sn) vals && (sn_total sn =? total)
-  && list_eqb Z.eqb (sn_chains sn) chains.
+Definition info_eqb (e r : extinfo) : bool :=
+  String.eqb (ei_type e) (ei_type r) && String.eqb (ei_chain e) (ei_chain r) && (ei_addr e =? ei_addr r)
+  && list_eqb String.eqb (ei_traits e) (ei_traits r).
+Definition val_eqb (v r : snapval) : bool :=
+  (v_addr v =? v_addr r) && (v_share v =? v_share r) && list_eqb info_eqb (v_infos v) (v_infos r).
+Definition snap_eqb (sn r : snapshot) : bool :=
+  (sn_id sn =? sn_id r) && list_eqb val_eqb (sn_vals sn) (sn_vals r) && (sn_total sn =? sn_total r)
+  && list_eqb String.eqb (sn_chains sn) (sn_chains r).
 
 Definition zz_eqb (p q : Z * Z) : bool := (fst p =? fst q) && (snd p =? snd q).
 
@@ -59,11 +75,11 @@ Definition valset_eqb (nvals : nat) (model got : list (Z * Z)) : bool :=
   if Nat.leb nvals 20 then list_eqb zz_eqb model got
   else list_eqb Z.eqb (map snd model) (map snd got) && perm_eqb model got.
 
-Definition check_sent (st : state) (m : Z * Z * list (Z * Z)) : bool :=
+Definition check_sent (t : tbl) (st : state) (m : Z * Z * list (Z * Z)) : bool :=
   let '(c, id, got) := m in
   match find_snapshot st id with
   | None => false
-  | Some sn => valset_eqb (length (sn_vals sn)) (transform sn c) got && is_enough (map snd got)
+  | Some sn => valset_eqb (length (sn_vals sn)) (transform sn (str t c)) got && is_enough (map snd got)
   end.
 
 (** model's view of the store: entries for ids 1..counter (None if absent), newest first *)
@@ -79,7 +95,7 @@ Definition listing (st : state) : list (option snapshot) :=
 Inductive hop :=
 | HStaking (vs : list rsval)
 | HRegister (a : Z) (infos : list rinfo) (accepted : bool)
-| HActive (cs : list Z)
+| HChains (cs : list (Z * bool))         (* the evm keeper's chain infos in store order: (reference id, IsActive) *)
 | HBuild (created : rsnap) (stored : bool)   (* createNewSnapshot's result, and whether TriggerSnapshotBuild stored one *)
 | HSetOnChain (id c : Z) (ok : bool)
 | HJit (c : Z).                          (* justInTimeValsetUpdate for chain c: no valset-state change *)
@@ -89,46 +105,52 @@ Inductive hop :=
     they exist), and the UpdateValset messages that newly appeared: (chain, valset id, entries). *)
 Record obs := { o_current : Z; o_store : list rsnap; o_sent : list (Z * Z * list (Z * Z)) }.
 
-Definition op_of (h : hop) : op :=
+Definition op_of (t : tbl) (h : hop) : op :=
   match h with
   | HJit _ => OBuild false
   | HStaking vs => OStaking (map mk_sval vs)
-  | HRegister a infos acc => ORegister a (map mk_info infos) acc
-  | HActive cs => OActive cs
+  | HRegister a infos acc => ORegister a (map (mk_info t) infos) acc
+  | HChains cs => OChains (map (fun c => (str t (fst c), snd c)) cs)
   | HBuild _ stored => OBuild stored
-  | HSetOnChain id c _ => OSetOnChain id c
+  | HSetOnChain id c _ => OSetOnChain id (str t c)
   end.
 
-Definition pre_ok (st : state) (h : hop) : bool :=
+Definition pre_ok (t : tbl) (st : state) (h : hop) : bool :=
   match h with
-  | HBuild created _ => snap_eqb (create st) created
+  | HBuild created _ => snap_eqb (create st) (mk_snap t created)
   | HSetOnChain id _ ok => Bool.eqb ok (match find_snapshot st id with Some _ => true | None => false end)
   | _ => true
   end.
 
-Definition osnap_eqb (o : option snapshot) (r : rsnap) : bool :=
-  match o with Some sn => snap_eqb sn r | None => false end.
+Definition osnap_eqb (t : tbl) (o : option snapshot) (r : rsnap) : bool :=
+  match o with Some sn => snap_eqb sn (mk_snap t r) | None => false end.
 
-Definition post_ok (st : state) (o : obs) : bool :=
+Definition post_ok (t : tbl) (st : state) (o : obs) : bool :=
   (match current st with Some sn => sn_id sn | None => 0 end =? o_current o)
-  && list_eqb2 osnap_eqb (listing st) (o_store o)
-  && forallb (check_sent st) (o_sent o).
+  && list_eqb2 (osnap_eqb t) (listing st) (o_store o)
+  && forallb (check_sent t st) (o_sent o).
 
-Fixpoint hist_ok (st : state) (l : list (hop * obs)) : bool :=
+Fixpoint hist_ok (t : tbl) (st : state) (l : list (hop * obs)) : bool :=
   match l with
   | [] => true
   | (h, o) :: r =>
-      pre_ok st h && (let st' := step st (op_of h) in post_ok st' o && hist_ok st' r)
+      pre_ok t st h && (let st' := step st (op_of t h) in post_ok t st' o && hist_ok t st' r)
   end.
 
 Inductive case :=
-| CTransform (vals : list rval) (c : Z) (got : list (Z * Z)) (enough : bool)
-| CHist (l : list (hop * obs)).
+| CTransform (t : tbl) (vals : list rval) (c : Z) (got : list (Z * Z)) (enough : bool)
+| CHist (t : tbl) (l : list (hop * obs))
+  (* evm Keeper.MissingChains called with [input] on a store holding [chains] returned [got] *)
+| CMissing (t : tbl) (input : list Z) (chains : list (Z * bool)) (got : list Z).
 
 Definition check (cs : case) : bool :=
   match cs with
-  | CTransform vals c got enough =>
-      let vs := map mk_val vals in
-      valset_eqb (length vs) (transform_vals vs c) got && Bool.eqb (is_enough (map snd got)) enough
-  | CHist l => hist_ok init l
+  | CTransform t vals c got enough =>
+      let vs := map (mk_val t) vals in
+      valset_eqb (length vs) (transform_vals vs (str t c)) got && Bool.eqb (is_enough (map snd got)) enough
+  | CHist t l => hist_ok t init l
+  | CMissing t input chains got =>
+      list_eqb String.eqb
+        (missing_chains (map (str t) input) (map (fun c => (str t (fst c), snd c)) chains))
+        (map (str t) got)
   end.
